@@ -6,12 +6,12 @@ import YowsupVerif.Lemmas.E2ETokKeys
 namespace Yow.E2E
 
 section
-variable {accts : List Acct} {groups : List (Nat × List Acct)}
+variable {ex : Bool} {accts : List Acct} {groups : List (Nat × List Acct)}
 
 theorem finish_sender {L : List (Acct × Node)} {s s' : Sys} {a : Acct} {cons rest : List Stanza} {c' : Client}
-    {out : List Stanza} {k : Nat} (hn : accts.Nodup) (hT : TV accts groups L (view s))
+    {out : List Stanza} {k : Nat} (hn : accts.Nodup) (hT : TV ex accts groups L (view s))
     (hss : SenderStep accts groups L (view s) a cons rest c' out k)
-    (hv : view s' = ((view s).popOut a rest).cstep a c' out k) : TV accts groups L (view s') :=
+    (hv : view s' = ((view s).popOut a rest).cstep a c' out k) : TV ex accts groups L (view s') :=
   hv ▸ TV.client_step hn hT (hss.toCStepOK hT)
 
 theorem SameBut.eraseIq (c : Client) (iq : Nat) : SameBut c { c with iqReg := erase c.iqReg iq } :=
@@ -32,13 +32,13 @@ theorem Src.short {s : Sys} {L : List (Acct × Node)} {x : Acct} {cons rest : Li
 
 theorem onIqResult_sender (hw : WFConfig accts groups) {s : Sys} {a : Acct} {hd : Stanza} {rest : List Stanza} {iq : Nat}
     {got ms : List Acct} {k0 : Cont} {n : Node} {who : Option Acct}
-    (hA : AInv accts groups (abs s)) (hT : TV accts groups s.submitted (view s)) (ha : a ∈ accts)
+    (hA : AInv accts groups (abs s)) (hT : TV ex accts groups s.submitted (view s)) (ha : a ∈ accts)
     (hlen : s.submitted.length ≤ 100)
     (hq : queueOf s.outbound a = hd :: rest) (hiq : stanzaIq hd = some iq)
     (hplain : ∀ id r, downTok id hd = 0 ∧ nOf id hd = 0 ∧ rcptOut id r hd = 0 ∧ retryDownTok id r hd = 0)
     (hk0 : lookup (getClient s a).iqReg iq = some k0) (hnode : contNode k0 = some (n, who))
     (hgot : ∀ j, j ∈ asked k0 → j ∈ got) :
-    TV accts groups s.submitted (view (onIqResult { s with outbound := insert s.outbound a rest } a iq got ms)) := by
+    TV ex accts groups s.submitted (view (onIqResult { s with outbound := insert s.outbound a rest } a iq got ms)) := by
   have hn := hw.1
   have hacc : a ∈ (view { s with outbound := insert s.outbound a rest }).accounts := by
     show a ∈ (view s).accounts; rw [hT.acc]; exact ha
